@@ -513,6 +513,23 @@ def method_call(self, recv, name, pos, kw, node, fr, star=None, dstar=None):
         return NONE if name not in ('pop', 'setdefault', 'popitem') else T.mk_call('.' + name, [recv] + pos, kw)
     if name in ('get',) and pos:
         return T.mk_call('.get', [recv] + pos, kw)
+    ra_t = recv.single_atom()
+    if ra_t is not None and ra_t.kind == 'attr' and self.class_of(recv) is None:
+        # the receiver is an attribute whose every store in its class constructs one package class, and that class's method
+        # returns one of its own attributes on every path (DataStream.get_samples returns self.v): the value of the call is
+        # a read of that attribute after the call
+        owner = self.class_of(ra_t.args[0])
+        if owner is None and fr.self_term is not None and ra_t.args[0].key == fr.self_term.key:
+            owner = fr.self_cls
+        tcls = None
+        for c_ in (owner.mro() if owner is not None else ()):
+            tcls = getattr(self.prog, 'attr_types', {}).get(c_.qual, {}).get(ra_t.args[1])
+            if tcls is not None:
+                break
+        mfi = tcls.find_method(name) if tcls is not None else None
+        ret_attr = self.prog.returns_self_attr(mfi) if mfi is not None else None
+        if ret_attr is not None:
+            return self.get_attr(recv, ret_attr, fr)
     if cbound is not None:
         # canonical application: every formal of the (unique) package signature in declaration order
         formals = cands[0].all_params()[1:]
@@ -597,6 +614,8 @@ def numpy_call(self, name, pos, kw):
         ax = kd.get('axis')
         axc = int(ax.const()) if ax is not None and ax.const() is not None else -1
         X = pos[0]
+        if axc < 0 and T.rank_of(X) is not None and T.rank_of(X) + axc >= 0:
+            axc = T.rank_of(X) + axc
         d = T.shape_dim(X, axc) if axc >= 0 else None
         if d is None and axc >= 0 and self.frames:
             inl = _arity_of_package_call(self, X, ast.parse('f()', mode='eval').body, self.frames[-1], want='value')
